@@ -1,5 +1,6 @@
 CONSTANTS
   Dims <- MCDims
+  DimSeq <- MCDimSeq
   MaxHazards = 3
 INIT Init
 NEXT Next
